@@ -30,15 +30,15 @@ Lemma frame_eval parent sc sel body :
   decls_only body -> body <> [] ->
   eval_node parent sc (NFrame sel body) = ROk ([OBlock (ONFrame sel) (own_props body) []], sc).
 Proof.
-  intros Hd Hne. cbn [eval_node].
+  intros Hd Hne. cbn [eval_node_g].
   assert (forall sc1, (fix go (sc1 : scope) (l : list node) : outcome (list obj) :=
             match l with
             | [] => ROk []
             | c :: r => rbind (eval_node parent sc1 c) (fun '(os, sc2) => rbind (go sc2 r) (fun rest => ROk (os ++ rest)))
             end) sc1 body = ROk (own_props body)) as Hgo.
   { clear Hne. induction Hd as [|c r Hc Hr IH]; intros sc1; [reflexivity|].
-    destruct c as [nm v i| | | |]; try contradiction.
-    cbn [eval_node]. rewrite preprocess_plain by assumption. rewrite eval_value_plain_vf by assumption.
+    destruct c as [nm v i| | | | | |]; try contradiction.
+    cbn [eval_node_g]. rewrite preprocess_plain by assumption. rewrite eval_value_plain_vf by assumption.
     cbn [rbind]. rewrite IH. reflexivity. }
   rewrite Hgo. cbn [rbind].
   assert (filter (fun o => negb (obj_is_block o)) (own_props body) = own_props body /\ filter obj_is_block (own_props body) = []) as [-> ->].
